@@ -488,3 +488,65 @@ package catalog
 //@   oncallback requires m.mx == 2
 //@   oncallback keeps m.mx, m.data, m.order
 //@   ensures m.mx == 0
+
+// ---------------------------------------------------------------- Tags precedence (C19): own Tags, else the URL's Tags, else the automatic tag
+
+//@ pred FirstTags(cs []*directive.Directive, r *directive.Directive) =
+//@      (r != nil ==> (exists i :: 0 <= i && i < len(cs) && cs[i] == r && r.type_ == 29 && (forall j :: 0 <= j && j < i ==> cs[j].type_ != 29)))
+//@   && (r == nil ==> (forall j :: 0 <= j && j < len(cs) ==> cs[j].type_ != 29))
+
+// names for the two lookups (defined by the functions below; their FirstTags postconditions are verified)
+//@ specfn ownTags(d directive.Directive) *directive.Directive
+//@ specfn urlTags(d directive.Directive) *directive.Directive
+
+//@ func getChildrenTagsDirective
+//@   tag C19 C01
+//@   pure
+//@   requires forall j :: 0 <= j && j < len(d.Children) ==> d.Children[j] != nil
+//@   ensures FirstTags(d.Children, ret)
+//@   ghostensures ret == ownTags(d)
+//@   loop 1 invariant 0 - 1 <= rangeindex && rangeindex <= rangelen - 1 && rangelen == len(d.Children)
+//@   loop 1 invariant forall j :: 0 <= j && j <= rangeindex ==> d.Children[j].type_ != 29
+//@   loop 1 decreases rangelen - rangeindex
+//@   loop 1 frame nothing
+
+//@ func getParentTagsDirective
+//@   tag C19 C01
+//@   pure
+//@   requires d.Parent != nil ==> (forall j :: 0 <= j && j < len(d.Parent.Children) ==> d.Parent.Children[j] != nil)
+//@   ensures d.Parent != nil && d.Parent.type_ == 7 ==> FirstTags(d.Parent.Children, ret)
+//@   ensures !(d.Parent != nil && d.Parent.type_ == 7) ==> ret == nil
+//@   ghostensures ret == urlTags(d)
+
+//@ func checkTagsDirective
+//@   tag C19 C01
+//@   requires DirWF(d)
+//@   modifies nothing
+//@   ensures [C19] len(d.unnamedParameters) == 0 ==> ret != nil
+
+// exactly the tags named by the directive, in order; an undeclared name is rejected
+//@ func (*Catalog).tagsFromTagsDirective
+//@   tag C19 C01 C11
+//@   requires c != nil && c.Tags != nil && c.Tags.mx == 0 && DirWF(d)
+//@   modifies c.Tags.mx
+//@   ensures c.Tags.mx == 0
+//@   ensures [C19] ret1 == nil ==> len(ret0) == len(d.unnamedParameters) && len(ret0) >= 1
+//@        && (forall k :: 0 <= k && k < len(ret0) ==> has(c.Tags.data, d.unnamedParameters[k]) && ret0[k] == c.Tags.data[d.unnamedParameters[k]])
+//@   ensures [C11] (exists k :: 0 <= k && k < len(d.unnamedParameters) && !has(c.Tags.data, d.unnamedParameters[k])) ==> ret1 != nil
+//@   loop 1 invariant 0 - 1 <= rangeindex && rangeindex <= rangelen - 1 && rangelen == len(d.unnamedParameters) && len(tt) == rangeindex + 1 && c.Tags.mx == 0 && rangelen >= 1
+//@   loop 1 invariant forall k :: 0 <= k && k <= rangeindex ==> has(c.Tags.data, d.unnamedParameters[k]) && tt[k] == c.Tags.data[d.unnamedParameters[k]]
+//@   loop 1 decreases rangelen - rangeindex
+//@   loop 1 frame nothing
+
+//@ func (*Catalog).tags
+//@   tag C19 C01
+//@   requires c != nil && RepInvTags(c.Tags) && TagsNamed(c.Tags) && c.Tags.mx == 0 && !isnil(id)
+//@   requires forall j :: 0 <= j && j < len(d.Children) ==> DirWF(d.Children[j])
+//@   requires d.Parent != nil ==> (forall j :: 0 <= j && j < len(d.Parent.Children) ==> DirWF(d.Parent.Children[j]))
+//@   modifies c.Tags.mx, c.Tags.data, c.Tags.order, mapof(c.Tags.data)
+//@   ensures [C19] ret1 == nil ==> len(ret0) >= 1
+//@   ensures [C19] ret1 == nil && ownTags(d) != nil ==> len(ret0) == len(ownTags(d).unnamedParameters)
+//@        && (forall k :: 0 <= k && k < len(ret0) ==> ret0[k] == old(c.Tags.data[ownTags(d).unnamedParameters[k]]))
+//@   ensures [C19] ret1 == nil && ownTags(d) == nil && urlTags(d) != nil ==> len(ret0) == len(urlTags(d).unnamedParameters)
+//@        && (forall k :: 0 <= k && k < len(ret0) ==> ret0[k] == old(c.Tags.data[urlTags(d).unnamedParameters[k]]))
+//@   ensures [C19] ret1 == nil && ownTags(d) == nil && urlTags(d) == nil ==> len(ret0) == 1 && has(c.Tags.data, ret0[0].Name) && c.Tags.data[ret0[0].Name] == ret0[0]
